@@ -1,4 +1,5 @@
 import MgModel.C12.Parity
+import MgModel.C12.Des
 /-!
 # C12 — DES key-byte parity: theorems (muggle/c/crypt/parity.c)
 
@@ -95,5 +96,64 @@ theorem out_of_table (b : Nat) (hb : 256 ≤ b) : setOdd b = none ∧ setEven b 
 /-- non-vacuity: the weak DES key byte 0x01 has odd parity, 0x00 does not; 0xFE is odd, 0xFF even -/
 example : checkOdd 0x01 = some 1 ∧ checkOdd 0x00 = some 0 ∧ checkOdd 0xFE = some 1 ∧ checkEven 0xFF = some 1 := by
   decide
+
+/-! ## The parity bit of a DES key byte is not key material (FIPS 46-3: PC-1 never selects bits 8, 16, .., 64)
+
+Links the parity unit to the DES specification model (`MgModel/C12/Des.lean`, the one the
+compiled DES core is compared with on every run): whatever `muggle_parity_set_odd/_even` does to
+the key bytes, every round key — hence every DES/3DES result — is unchanged. -/
+section KeyBits
+open MgModel.C12 MgModel.C12.Des
+
+theorem hi_bits {a b : BitVec 8} (h : a >>> 1 = b >>> 1) (i : Nat) (hi : 1 ≤ i) (h8 : i < 8) :
+    a[i] = b[i] := by
+  have := congrArg (fun x => x.getLsbD (i-1)) h
+  simp only [BitVec.getLsbD_ushiftRight] at this
+  rw [show 1 + (i-1) = i by omega] at this
+  simpa [BitVec.getLsbD_eq_getElem h8] using this
+
+theorem pc1_parity (a0 a1 a2 a3 a4 a5 a6 a7 b0 b1 b2 b3 b4 b5 b6 b7 : BitVec 8)
+    (h0 : a0 >>> 1 = b0 >>> 1) (h1 : a1 >>> 1 = b1 >>> 1) (h2 : a2 >>> 1 = b2 >>> 1) (h3 : a3 >>> 1 = b3 >>> 1)
+    (h4 : a4 >>> 1 = b4 >>> 1) (h5 : a5 >>> 1 = b5 >>> 1) (h6 : a6 >>> 1 = b6 >>> 1) (h7 : a7 >>> 1 = b7 >>> 1) :
+    permute Tables.desPC1 (bytesToBits [a0,a1,a2,a3,a4,a5,a6,a7]) =
+    permute Tables.desPC1 (bytesToBits [b0,b1,b2,b3,b4,b5,b6,b7]) := by
+  have g0 := hi_bits h0; have g1 := hi_bits h1; have g2 := hi_bits h2; have g3 := hi_bits h3
+  have g4 := hi_bits h4; have g5 := hi_bits h5; have g6 := hi_bits h6; have g7 := hi_bits h7
+  simp [permute, bytesToBits, byteBits, Tables.desPC1, List.range, List.range.loop,
+    g0, g1, g2, g3, g4, g5, g6, g7]
+
+/-- **Round keys ignore the parity bits**: two 8-byte keys that agree in bits 7..1 of every byte
+    (`>>> 1`) have the same sixteen round keys — for every key, not a sample. -/
+theorem keySchedule_ignores_parity (k k' : Bytes) (hl : k.length = 8)
+    (h : k'.map (fun x : Byte => x >>> 1) = k.map (fun x : Byte => x >>> 1)) : keySchedule k' = keySchedule k := by
+  have hl' : k'.length = 8 := by simpa [hl] using congrArg List.length h
+  match k, hl, k', hl', h with
+  | [a0,a1,a2,a3,a4,a5,a6,a7], _, [b0,b1,b2,b3,b4,b5,b6,b7], _, h =>
+    simp only [List.map_cons, List.map_nil, List.cons.injEq, and_true] at h
+    obtain ⟨h0, h1, h2, h3, h4, h5, h6, h7⟩ := h
+    unfold keySchedule
+    rw [pc1_parity b0 b1 b2 b3 b4 b5 b6 b7 a0 a1 a2 a3 a4 a5 a6 a7 h0 h1 h2 h3 h4 h5 h6 h7]
+
+/-- **DES results ignore the parity bits of the key**, both directions, every block -/
+theorem des_ignores_key_parity (k k' : Bytes) (hl : k.length = 8)
+    (h : k'.map (fun x : Byte => x >>> 1) = k.map (fun x : Byte => x >>> 1)) (b : Bytes) :
+    encryptBlock k' b = encryptBlock k b ∧ decryptBlock k' b = decryptBlock k b := by
+  simp [encryptBlock, decryptBlock, keySchedule_ignores_parity k k' hl h]
+
+/-- what `muggle_parity_set_odd` / `_set_even` return keeps bits 7..1 of the byte, i.e. satisfies
+    the per-byte hypothesis of `des_ignores_key_parity` -/
+theorem set_keeps_key_bits (b : BitVec 8) :
+    (∃ v, setOdd b.toNat = some v ∧ BitVec.ofNat 8 v >>> 1 = b >>> 1) ∧
+    (∃ v, setEven b.toNat = some v ∧ BitVec.ofNat 8 v >>> 1 = b >>> 1) := by
+  obtain ⟨v, hv, hlt, _, hdiv⟩ := setOdd_spec b.toNat b.isLt
+  obtain ⟨w, hw, hlt', _, hdiv'⟩ := setEven_spec b.toNat b.isLt
+  refine ⟨⟨v, hv, ?_⟩, ⟨w, hw, ?_⟩⟩ <;> apply BitVec.eq_of_toNat_eq <;>
+    simp [BitVec.toNat_ushiftRight, Nat.shiftRight_eq_div_pow, Nat.mod_eq_of_lt, *]
+
+/-- non-vacuity: the textbook key `133457799BBCDFF1` is `123456789ABCDEF0` with odd parity set -/
+example : ([0x13,0x34,0x57,0x79,0x9b,0xbc,0xdf,0xf1] : Bytes).map (fun x : Byte => x >>> 1) =
+    ([0x12,0x34,0x56,0x78,0x9a,0xbc,0xde,0xf0] : Bytes).map (fun x : Byte => x >>> 1) := by decide
+
+end KeyBits
 
 end MgProof.C12.Parity
